@@ -351,8 +351,8 @@ func project(trace []string, kind byte) []string {
 }
 
 // diffKind classifies how an observed daemon sequence differs from the
-// expected one: lost (an expected daemon did not run), dup (a daemon ran more
-// often than expected), lost+dup, misordered (same daemons, other order).
+// expected one: lost-or-dup (a daemon did not run or ran more often than
+// required), misordered (same daemons, other order).
 func diffKind(exp, got []string) string {
 	if strings.Join(exp, " ") == strings.Join(got, " ") {
 		return ""
@@ -364,24 +364,15 @@ func diffKind(exp, got []string) string {
 	for _, t := range got {
 		cg[t]++
 	}
-	lost, dup := false, false
 	for t, n := range ce {
-		if cg[t] < n {
-			lost = true
+		if cg[t] != n {
+			return "lost-or-dup"
 		}
 	}
 	for t, n := range cg {
-		if ce[t] < n {
-			dup = true
+		if ce[t] != n {
+			return "lost-or-dup"
 		}
-	}
-	switch {
-	case lost && dup:
-		return "lost+dup"
-	case lost:
-		return "lost"
-	case dup:
-		return "dup"
 	}
 	return "misordered"
 }
@@ -434,6 +425,7 @@ func execMethods(spec string, parts []string) (res engine.Result) {
 			precS = append(precS, strconv.Itoa(g))
 		}
 		expTrace, expRet, handled := realRef.expectSend(comps, ms, f)
+		expTable := expectTable(prec, ms)
 		// vacuity counters
 		if handled {
 			res.Hit(sh + "-instance")
@@ -537,9 +529,13 @@ func execMethods(spec string, parts []string) (res engine.Result) {
 			if !handled {
 				continue // nothing handles :m; what happens then is not constrained
 			}
-			suffix := fmt.Sprintf("timing=%s hist=%s", timing, hist)
-			tail := fmt.Sprintf(": trace [%s] => %s %s; required [%s] => %s; method table %s", strings.Join(o.trace, " "), o.ret, o.err,
-				strings.Join(expTrace, " "), expRet, o.combos)
+			table := "ok"
+			if o.combos != expTable {
+				table = "wrong"
+			}
+			suffix := fmt.Sprintf("table=%s timing=%s", table, timing)
+			tail := fmt.Sprintf(": trace [%s] => %s %s; required [%s] => %s; method table %s, a correct table is %s", strings.Join(o.trace, " "), o.ret, o.err,
+				strings.Join(expTrace, " "), expRet, o.combos, expTable)
 			if strings.HasPrefix(o.err, "go-fault") {
 				fail(fmt.Sprintf("send shape=%s kind=go-fault %s", sh, suffix), where+tail)
 				continue
